@@ -14,15 +14,16 @@ def hist_lines(ctx, res):
     return out
 
 
-def gen_cfg(depth, seeded=False):
+def gen_cfg(depth, seeded=False, cold=False):
     return """SPECIFICATION Spec
 CONSTANTS
   Depth = %d
   MaxOps = 0
   Seeded = %s
+  ColdSeed = %s
 INVARIANT Dump
 CHECK_DEADLOCK FALSE
-""" % (depth, "TRUE" if seeded else "FALSE")
+""" % (depth, "TRUE" if seeded else "FALSE", "TRUE" if cold else "FALSE")
 
 
 def run(ctx):
@@ -33,6 +34,7 @@ CONSTANTS
   Depth = 0
   MaxOps = %d
   Seeded = FALSE
+  ColdSeed = FALSE
 INVARIANTS InvOneMinerPerAccount InvConservation InvStakeAccounting InvNonNegative InvStakeFloor
 CHECK_DEADLOCK FALSE
 """ % (4 if quick else 5)
@@ -54,6 +56,16 @@ CHECK_DEADLOCK FALSE
         h4 = h4[:2500]
     if not h4:
         raise Inconclusive("TLC generated no seeded histories")
+    # the same on a registry whose proposer was applied FOR a cold account (an address without any
+    # state object, named explicitly in the apply)
+    g4c = ctx.tlc("MinerRegistryMC", cfg_text=gen_cfg(4, seeded=True, cold=True), timeout=1200)
+    h4c = hist_lines(ctx, g4c)
+    rng.shuffle(h4c)
+    if quick:
+        h4c = h4c[:1500]
+    if not h4c:
+        raise Inconclusive("TLC generated no cold-account histories")
+    h4 = h4 + h4c
     h2 = h2 + h4
     deep_depth = 6 if quick else 8
     gs = ctx.tlc("MinerRegistryMC", cfg_text=gen_cfg(deep_depth), simulate="num=%d" % (40 if quick else 250),
